@@ -24,3 +24,23 @@ Definition equiv_case (E1 E2 : sys) : bool := check_equiv E1 E2.
 Definition rename_equiv_case (m : list (string * string)) (E1 E2 : sys) : bool :=
   check_equiv (rename_sys (assoc_map m) E1) E2.
 Definition closed_case (allowed : list string) (E : sys) : bool := check_closed allowed E.
+
+(* ---- C07: the FX bookkeeping model against the implementation's NET_<currency> term lists ---- *)
+From SFC.Gen Require Import Fx.
+
+Fixpoint zs_eqb (a b : list (Z * string)) : bool :=
+  match a, b with
+  | [], [] => true
+  | (c, s) :: a', (d, t) :: b' => Z.eqb c d && String.eqb s t && zs_eqb a' b'
+  | _, _ => false
+  end.
+
+Definition term_text (t : term) : Z * string := (fst t, String.concat "*" (snd t)).
+
+Fixpoint ledger_lookup (c : string) (L : ledger) : list term :=
+  match L with [] => [] | (d, ts) :: r => if String.eqb c d then ts else ledger_lookup c r end.
+
+(** expected: for every registered currency the (coefficient, text) list of NET_<currency> *)
+Definition fx_case (ops : list fxop) (expected : list (string * list (Z * string))) : bool :=
+  let L := fx_run ops in
+  forallb (fun ce => zs_eqb (map term_text (ledger_lookup (fst ce) L)) (snd ce)) expected.
